@@ -79,6 +79,16 @@ class Unit:
                 out.append(text)
                 i += 1
                 continue
+            if ln.startswith('//@expect'):
+                # //@expect file=<rel> /regex/  — a fact about the source the hand-written part relies on
+                o = parse_kv(ln[9:].split(' /', 1)[0])
+                pat = ln[9:].split(' /', 1)[1].rstrip()
+                pat = pat[:-1] if pat.endswith('/') else pat
+                if not re.search(pat, X.read_repo(o['file'])):
+                    raise X.ExtractError('%s: expected source fact /%s/ not found in %s' % (self.name, pat, o['file']))
+                info['functions'].append(dict(name='expect /' + pat + '/', file=o['file'], line=0, sha='-', rules={'Rx.expect': 1}))
+                i += 1
+                continue
             if ln.startswith('//@const'):
                 o = parse_kv(ln[8:])
                 for nm in o['name'].split(','):
@@ -346,6 +356,12 @@ def run_one(unit, run, workdir, tier='quick', keep=False, extra_flags='', trace_
     cb = 'cbmc %s--no-malloc-may-fail --no-standard-checks %s %s %s' % (ob, flags, solver, b)
     res['cmd'] = ' && '.join(x for x in (cmd1, gi, cb) if x)
     rc, out3, secs = sh(cb, timeout, mem_gb=int(run.get('mem', 8)))
+    for bits in (10, 12, 14):
+        if 'too many addressed objects' not in out3:
+            break
+        cb = 'cbmc --object-bits %d --no-malloc-may-fail --no-standard-checks %s %s %s' % (bits, flags, solver, b)
+        rc, out3, secs = sh(cb, timeout, mem_gb=int(run.get('mem', 8)))
+    res['cmd'] = ' && '.join(x for x in (cmd1, gi, cb) if x)
     res['solver_s'] = round(secs, 2)
     res['out'] = out3[-6000:]
     if rc == 124 or 'TIMEOUT' in out3[-20:]:
